@@ -113,8 +113,16 @@ func c05Run(c *vcore.Ctx) *vcore.Violation {
 		}
 	}()
 	mb := mount.NewBuilder().WithBind(filepath.Dir(probePath), "probe", true)
+	// a root without /dev/null: file masks are bind mounts of it, so they cannot be applied - the build must
+	// say so, not hand out a container whose masks are silently missing
+	noDevNull := impl == "container" && src.Bool(1, 4, "root_without_devnull")
 	if impl == "container" {
-		mb = mb.WithTmpfs("w", "").WithBind("/dev/null", "dev/null", false)
+		mb = mb.WithTmpfs("w", "")
+		if !noDevNull {
+			mb = mb.WithBind("/dev/null", "dev/null", false)
+		} else {
+			c.Event("root_without_devnull")
+		}
 	}
 	for _, e := range ents {
 		switch e.kind {
@@ -222,6 +230,11 @@ func c05Run(c *vcore.Ctx) *vcore.Violation {
 	})
 	if !ok {
 		return vcore.Violate(prop, "hang", impl, "run did not return")
+	}
+	if noDevNull && res.Status == runner.StatusRunnerError && strings.HasPrefix(res.Error, "container build:") {
+		// refused (the masks cannot be applied, or the init command cannot get its standard streams): fine
+		c.Probe("build_refused_masks_without_devnull")
+		return nil
 	}
 	if res.Status != runner.StatusNormal {
 		return vcore.Violate(prop, "launch_failed", impl, "the configured root could not be entered: %s %s (mounts: %s)", statusName(res.Status), res.Error, strings.Join(desc, "; "))
